@@ -30,6 +30,7 @@ class ScriptedRng:
     def __init__(self, seed, specials=(), pspecial=0.0):
         self.r = random.Random(seed); self.lines = []; self.specials = list(specials); self.pspecial = pspecial
         self.nspecial = 0; self.recent = []; self.hook = None
+        self.values = []        # every value handed out, in order (replayed by the fresh twin of C10)
 
     def random(self):
         x = self._random(); self.recent.append(x); return x
@@ -41,21 +42,64 @@ class ScriptedRng:
             x = p if k == 0 else math.nextafter(p, 2.0 if k > 0 else -1.0)
             if 0.0 < x < 1.0:
                 self.nspecial += 1
-                self.lines.append(f"RF {bits(x)}"); return x
+                self.lines.append(f"RF {bits(x)}"); self.values.append(x); return x
         x = self.r.randrange(1, 1 << 30) / float(1 << 30)
-        self.lines.append(f"RF {bits(x)}"); return x
+        self.lines.append(f"RF {bits(x)}"); self.values.append(x); return x
 
     def integers(self, low, high=None):
         if high is None:
             low, high = 0, low
         x = self.r.randrange(low, high)
         assert low == 0
-        self.lines.append(f"RI {high} {x}"); return x
+        self.lines.append(f"RI {high} {x}"); self.values.append(x); return x
+
+
+class ReplayRng:
+    """hands out a recorded sequence of values again"""
+    def __init__(self, values):
+        self.values = list(values); self.lines = []; self.recent = []
+
+    def random(self):
+        return self.values.pop(0)
+
+    def integers(self, low, high=None):
+        return self.values.pop(0)
+
+
+class Injected(Exception):
+    """the fault the harness injects into an earlier run (C10)"""
+
+
+def snapshot(o, depth=0, memo=None):
+    """canonical, comparable picture of an object's state (C10 fresh-twin oracle): ids, wrappers and bound objects are abstracted"""
+    import types
+    memo = memo if memo is not None else {}
+    if isinstance(o, (int, float, str, bool, type(None))): return o
+    if id(o) in memo or depth > 7: return '<seen>'
+    if isinstance(o, (list, tuple)): return [snapshot(x, depth + 1, memo) for x in o]
+    if isinstance(o, (set, frozenset)): return sorted((snapshot(x, depth + 1, memo) for x in o), key=repr)
+    if isinstance(o, dict): return sorted(((repr(snapshot(k, depth + 1, memo)), snapshot(v, depth + 1, memo)) for k, v in o.items()), key=lambda kv: kv[0])
+    if isinstance(o, nx.Graph):
+        return dict(nodes=[(n, snapshot(dict(d), depth + 1, memo)) for n, d in o.nodes(data=True)],
+                    adj=[(n, [(m, snapshot(dict(o.edges[n, m]), depth + 1, memo)) for m in o.adj[n]]) for n in o.nodes()])
+    if callable(o) and not hasattr(o, '__dict__') or isinstance(o, (types.FunctionType, types.MethodType, types.BuiltinFunctionType)):
+        f = getattr(o, '_orig', o)
+        return '<fn ' + getattr(getattr(f, '__func__', f), '__qualname__', '?').split('.<locals>')[0] + '>'
+    memo[id(o)] = True
+    if hasattr(o, '__iter__') and hasattr(o, '__len__') and type(o).__name__ in ('DrawSet', 'Locus', 'CompartmentedNodeLocus', 'CompartmentedEdgeLocus', 'MultiCompartmentedEdgeLocus', 'SingletonLocus'):
+        extra = {k: snapshot(v, depth + 1, memo) for k, v in vars(o).items() if k in ('_name', '_compartment', '_left', '_right', '_rights')}
+        return dict(cls=type(o).__name__, elems=sorted(repr(x) for x in o), **extra)
+    if hasattr(o, '__dict__'):
+        skip = ('_vp_', 'build', 'setUp', 'results', 'perElementEventDistribution', '_metadata', '_results', '_dynamics', '_container', '_process', '_generator', 'log', 'hf',
+                '_runId', '_uniqueId')      # (run counter and instance serial number: meant to differ)
+        return dict(cls=type(o).__name__.rstrip('2') if type(o).__name__ in ('D', 'D2') else type(o).__name__, vars=sorted((k, snapshot(v, depth + 1, memo)) for k, v in vars(o).items()
+                                                     if not any(k.startswith(x) or k == x for x in skip)))
+    return '<' + type(o).__name__ + '>'
 
 
 # AddDelete.add iterates a Python set of the chosen nodes; that order is an input of the model (it checks that it is a
 # permutation of the nodes it chose itself): observe it at Process.addEdge and write it to the random stream afterwards
-from epydemic import AddDelete, Process as _Process
+from epydemic import AddDelete, Process as _Process, FixedNetwork
 CURRENT = {}
 _ad_add = AddDelete.add
 _p_addEdge = _Process.addEdge
@@ -87,7 +131,11 @@ class Gen(NetworkGenerator):
         return 'scripted'
 
     def _generate(self, params):
-        g = nx.Graph(); g.add_nodes_from(self._nodes); g.add_edges_from(self._edges); return g
+        # 'vp.dropedges' is a parameter of this generator's ensemble (C10/C15: a run must see only the parameters set for it)
+        k = int(params.get('vp.dropedges', 0))
+        g = nx.Graph(); g.add_nodes_from(self._nodes); g.add_edges_from(self._edges[:len(self._edges) - k] if k else self._edges)
+        if getattr(self, 'attrs', None): self.attrs(g)
+        return g
 
 
 # ---------------------------------------------------------------------------------------------------------------
@@ -400,6 +448,45 @@ def is_member(l, e):
     return e in l
 
 
+def fresh_twin(case, values, snap):
+    """C10: the state of every object of the experiment at the start of the run must equal that of a brand-new experiment given the same
+    network, parameters and random numbers"""
+    if snap is None: return None
+    rr = ReplayRng(values)
+    vrepo.patch_rng(rr); CURRENT['sr'] = None
+    top = case['build'](); top.setMaximumTime(case['maxT'])
+    Dyn = StochasticDynamics if case['dyn'] == 'sto' else SynchronousDynamics
+    got = {}
+
+    class Stop(BaseException):
+        pass
+
+    class D2(Dyn):
+        def simulationStarted(self, params):
+            got['snap'] = snapshot(self); raise Stop()
+    d2 = D2(top, FixedNetwork(Gen(case['nodes'], case['edges'])._generate({})) if case.get('fixed_proto') else Gen(case['nodes'], case['edges']))
+    try:
+        d2.set(case['params']).run(fatal=True)
+    except Stop:
+        pass
+    except Exception as ex_:
+        return None
+    a, b = snap, got.get('snap')
+    if b is None or a == b: return None
+
+    def diff(x, y, path):
+        if type(x) != type(y): return f"{path}: {str(x)[:80]} vs {str(y)[:80]}"
+        if isinstance(x, dict):
+            for k in sorted(set(x) | set(y), key=str):
+                if x.get(k) != y.get(k): return diff(x.get(k), y.get(k), f"{path}.{k}")
+        if isinstance(x, list):
+            if len(x) != len(y): return f"{path}: {len(x)} entries vs {len(y)} in a fresh experiment: {str(x)[:120]} vs {str(y)[:120]}"
+            for i, (u, v) in enumerate(zip(x, y)):
+                if u != v: return diff(u, v, f"{path}[{u[0] if isinstance(u, (list, tuple)) and u and isinstance(u[0], str) else i}]")
+        return f"{path}: {str(x)[:100]} vs {str(y)[:100]} in a fresh experiment"
+    return "state at the start of the run differs from a fresh experiment's: " + diff(a, b, 'experiment')
+
+
 def run_case(case):
     """case: dict(build=callable -> top process, dyn='sto'|'syn', nodes, edges, maxT, seed, params, specials, ops)
     returns (input lines, expected lines, info)"""
@@ -435,6 +522,9 @@ def run_case(case):
         orig = getattr(ef, '_orig', ef)
 
         def w(t, e):
+            st['nev'] = st.get('nev', 0) + 1
+            if isinstance(st.get('inject'), (list, tuple)) and st['inject'][0] == 'event' and st['nev'] == st['inject'][1]:
+                raise Injected(f"event {st['nev']}")
             cur.update(h=t, clock=d.currentSimulationTime(), ef=orig, posted=posted_time is not None,
                        own=posted_time if posted_time is not None else t, locus=locus,
                        member=is_member(locus, e) if locus is not None else True)
@@ -457,6 +547,11 @@ def run_case(case):
 
     class D(Dyn):
         def simulationStarted(self, params):
+            if st.get('fresh_check'):
+                if self.currentSimulationTime() != 0.0: info['oracle'].append(('fresh', f"the run starts at simulation time {self.currentSimulationTime()}, not 0"))
+                if set(self._postedEventFinder) != set(ref):
+                    info['oracle'].append(('fresh', f"pending events at the start are {sorted(self._postedEventFinder)}, this run's build and set-up posted {sorted(ref)}"))
+                st['snap'] = snapshot(self)
             exp.append("START " + state_line(self, st['ex']))
             st['sizes'] = [(None, [len(l) for l in self.loci().values()])]
             g = self.network()
@@ -564,7 +659,21 @@ def run_case(case):
             elif r != ref[id][0]: qviol(f"pendingEventTime({id}) returned {r}, the event is due at {ref[id][0]}")
             return r
 
-    d = D(top, Gen(case['nodes'], case['edges']))
+    gen0 = Gen(case['nodes'], case['edges'])
+    d = D(top, gen0)
+    if case.get('preattr') is not None:
+        # the network handed to the experiment already carries this model's state attributes (e.g. the residual network of an earlier run)
+        def attrs(g, seed=case['preattr']):
+            rp = random.Random(seed)
+            for p in top.allProcesses():
+                if not isinstance(p, CompartmentedModel): continue
+                names = ([p.cname(i) for i in range(len(p.spec['comps']))] if isinstance(p, ScriptProc) else
+                         [getattr(p, k) for k in ('SUSCEPTIBLE', 'INFECTED', 'REMOVED', 'EXPOSED', 'IGNORANT', 'SPREADER', 'STIFLER') if hasattr(p, k)])
+                for n in g.nodes():
+                    if names and rp.random() < 0.7: g.nodes[n][p.COMPARTMENT] = rp.choice(names)
+                for (a, b) in g.edges():
+                    if rp.random() < 0.3: g.edges[a, b][p.OCCUPIED] = True
+        gen0.attrs = attrs
 
     def boundary():
         g = st.get('gil')
@@ -579,7 +688,9 @@ def run_case(case):
     orig_build = top.build
 
     def build(params):
+        if st.get('inject') == 'build0': raise Injected('before build')
         orig_build(params)
+        if st.get('inject') == 'build': raise Injected('after build')
         ex = Extract(top, d); st['ex'] = ex
         for p in ex.leaves:
             if isinstance(p, ScriptProc): ex.register_script(p)
@@ -615,6 +726,7 @@ def run_case(case):
             if isinstance(p, CompartmentedModel):
                 i = ex.inst[id(p)]; ci = ex.cidx[id(p)]
                 setup.append(f"S_INITC {i} " + ' '.join(f"{ci[c]}:{fb(pp)}" for c, pp in p._compartments.items()))
+                for (n, ck) in getattr(p, '_vp_force', ()): setup.append(f"S_FORCE {i} {n} {ci[getattr(p, ck)]}")
                 if isinstance(p, SIR_FixedRecovery):
                     setup.append(f"S_POSTC {i} {ci[p.INFECTED]} {fb(p._tInfected)} {ex.hid(p.remove)}")
                 if isinstance(p, SIS_FixedRecovery):
@@ -641,6 +753,50 @@ def run_case(case):
         st['cfg'] = cfg + per + fix + eq + setup
 
     top.build = build
+    orig_setUp = top.setUp; orig_results = top.results
+
+    def setUp_(params):
+        if st.get('inject') == 'setup0': raise Injected('before setUp')
+        orig_setUp(params)
+        if st.get('inject') == 'setup': raise Injected('after setUp')
+
+    def results_():
+        if st.get('inject') == 'results': raise Injected('results')
+        return orig_results()
+    if case.get('history'):
+        top.setUp = setUp_; top.results = results_
+    protos = []
+    for ep in case.get('history', ()):
+        # an earlier run on the same experiment object: other parameters, perhaps cut short, perhaps failing; then forget what was recorded
+        st['inject'] = ep.get('inject'); st['nev'] = 0
+        top.setMaximumTime(ep.get('maxT', case['maxT']))
+        pp = dict(case['params']); pp.update(ep.get('params', {}))
+        gen0._edges = [tuple(e) for e in ep['edges']] if ep.get('edges') is not None else case['edges']     # (same generator object throughout)
+        try:
+            d.set(pp).run(fatal=True)
+            info['hist_done'] = info.get('hist_done', 0) + 1
+        except Injected:
+            info['hist_injected'] = info.get('hist_injected', 0) + 1
+        except (CaseTooBig,):
+            info['hist_cut'] = info.get('hist_cut', 0) + 1
+        except RecursionError:
+            raise
+        except Exception as ex_:
+            info['hist_exc'] = f"{type(ex_).__name__}: {ex_}"
+        exp.clear(); sr.lines.clear(); sr.recent.clear(); sr.values.clear(); sr.nspecial = 0
+        keep = dict(hist_done=info.get('hist_done', 0), hist_injected=info.get('hist_injected', 0), hist_cut=info.get('hist_cut', 0), hist_exc=info.get('hist_exc'))
+        info.clear(); info.update(events=0, posted=0, stale=0, handlers=set(), exc=None, oracle=[], **keep)
+        st.clear(); cur.clear(); ref.clear(); qv.clear()
+        for k in [k for k in d.__dict__ if k.startswith('_vp_')]: del d.__dict__[k]
+    if case.get('history'):
+        st['inject'] = None
+        top.setMaximumTime(case['maxT'])
+        if case.get('fixed_proto'):
+            proto = Gen(case['nodes'], case['edges'])._generate({})
+            protos.append(proto); d.setNetworkGenerator(FixedNetwork(proto))
+        else:
+            gen0._edges = case['edges']
+        st['fresh_check'] = True
     try:
         rc = d.set(case['params']).run(fatal=True)
         md = rc['metadata']; res = rc['results']
@@ -671,6 +827,14 @@ def run_case(case):
             if r: info['oracle'].append((f.__name__.replace('final_', ''), r))
         if md[Dynamics.EVENTS] != info['events']:
             info['oracle'].append(('clock', f"metadata reports {md[Dynamics.EVENTS]} events, the tap saw {info['events']}"))
+        if st.get('fresh_check'):
+            for proto in protos:
+                want = Gen(case['nodes'], case['edges'])._generate({})
+                if list(proto.nodes(data=True)) != list(want.nodes(data=True)) or [(a, b, dict(dd)) for a, b, dd in proto.edges(data=True)] != [(a, b, dict(dd)) for a, b, dd in want.edges(data=True)]:
+                    info['oracle'].append(('fresh', "the prototype network of the fixed-network generator was modified by a run"))
+                if d.network() is proto: info['oracle'].append(('fresh', "the run worked on the prototype itself, not on a copy"))
+            r = fresh_twin(case, sr.values, st.get('snap'))
+            if r: info['oracle'].append(('fresh', r))
     except RecursionError:
         raise
     except Exception as ex_:
@@ -679,6 +843,7 @@ def run_case(case):
         if isinstance(ex_, KeyError) and any(getattr(o, '__name__', '') == 'oracle_compose' for o in case.get('oracles', ())):
             info['oracle'].append(('compose', f"KeyError {ex_} although every parameter is supplied under the instance's decorated name or the shared name"))
     g0 = Gen(case['nodes'], case['edges'])._generate({})
+    if case.get('history') and case.get('fixed_proto'): g0 = g0.copy()      # what FixedNetwork hands out (networkx copy() re-inserts adjacency)
     inp = ["RESET", "NODES " + ' '.join(map(str, g0.nodes()))]
     for u in g0.nodes(): inp.append(f"ADJ {u} " + ' '.join(map(str, g0.adj[u])))
     inp += st.get('cfg', [])
